@@ -27,7 +27,7 @@ DIR_KEYS = dict(rescale="dir.rescale_on_step_size_changes", hvf="dir.hessian_vec
 
 class DirCase:
     """one whole run: problem, start, PANOC parameters P, direction name, accelerator parameters A, direction parameters Dp"""
-    def __init__(self, prob, x0, y0, S0, P, always, tol, direction, A, Dp, stop_eval=-1, stop_cb=-1, time0=False, tag="random"):
+    def __init__(self, prob, x0, y0, S0, P, always, tol, direction, A, Dp, stop_eval=-1, stop_cb=-1, time0=False, tag="random", solver="panoc", extra=()):
         self.__dict__.update(locals()); del self.__dict__["self"]
         self.stop_dir = -1
         self.script, self.initial = [], False
@@ -44,7 +44,8 @@ class DirCase:
                 params.append("dir.failure_policy=%s" % ("UseScaledLBFGSInput" if v else "FallbackToProjectedGradient"))
             else:
                 params.append("%s=%s" % (DIR_KEYS[k], PANOC.pstr(v)))
-        self.rq = sl.Request(prob, x0, y0, S0, "panoc", direction, "inner", params, always=always, tol=tol,
+        params += list(extra)
+        self.rq = sl.Request(prob, x0, y0, S0, solver, direction, "inner", params, always=always, tol=tol,
                              max_time_ns=(0 if time0 else -1), stop_at_eval=stop_eval, stop_at_cb=stop_cb)
 
     def P_(self, k):
@@ -321,9 +322,14 @@ def attach(ctx, scale=0.3, extra_oracle=None):
                            "PANOCSolver<LBFGS|Anderson|Noop|StructuredLBFGS Direction> must coincide with the model at binary64")
     run_corr(ctx, ctx.pid, scale, extra_oracle)
 
-def run_corr(ctx, prefix, scale, extra_oracle=None):
+FLAVOR = dict(name="PANOCDIR", solver="PANOCSolver", model="PanocDir.panocD", files="PanocDir.v + Directions.v", requires=REQUIRES, casetype="dcase",
+              chk="chkpanocdir", dump="modelpanocdir", conv=(lambda ctx, cs: cs), term=coq_case, key="panocdir")
+
+def run_corr(ctx, prefix, scale, extra_oracle=None, F=FLAVOR):
     if not build_driver(ctx, "solve"): return
+    NAME, key = F["name"], F["key"]
     cases = gen_dyadic(ctx) + gen_gamma_changes(ctx, max(20, int(scale * ctx.n(150, 1200)))) + gen_random(ctx, max(40, int(scale * ctx.n(300, 3000))))
+    cases = [F["conv"](ctx, c) for c in cases]
     outs = run_driver(ctx, "solve", "".join(c.rq.to_input() for c in cases), timeout=1500)
     if outs is None or len(outs) != len(cases):
         ctx.broke("correspondence", "drv_solve", "driver produced %s results for %d runs rc=%s %s" % (None if outs is None else len(outs), len(cases), getattr(ctx, "driver_rc", "?"), getattr(ctx, "driver_err", "")))
@@ -337,8 +343,10 @@ def run_corr(ctx, prefix, scale, extra_oracle=None):
             for sig, msg in extra_oracle(cs, o):
                 ctx.violation(sig, msg, dict(rep, why=msg))
         for sig, msg in oracle(cs, o):
-            if prefix != "PANOCDIR":
-                sig = sig.replace("PANOCDIR:", prefix + ":panocdir-model:").replace("PANOC:", prefix + ":panocdir-model:")
+            if prefix != NAME:
+                sig = sig.replace("PANOCDIR:", prefix + ":%s-model:" % key).replace("PANOC:", prefix + ":%s-model:" % key)
+            elif NAME != "PANOCDIR":
+                sig = sig.replace("PANOCDIR:", NAME + ":").replace("PANOC:", NAME + ":")
             ctx.violation(sig, msg, dict(rep, why=msg))
         ctx.case(signature(cs, o), sample=({"request": cs.rq.describe(), "status": o.get("status"), "iterations": o.get("iterations"), "records": len(o["records"])}
                                           if len(o["records"]) > 3 else None))
@@ -350,9 +358,9 @@ def run_corr(ctx, prefix, scale, extra_oracle=None):
             ctx.count("runs-with-accepted-accelerated-step/" + cs.direction)
         if "exc" not in o and o["lbfgs_rejected"] > 0:
             ctx.count("runs-with-rejected-update/" + cs.direction)
-        terms.append(coq_case(cs, o)); owners.append((cs, o))
-    failing = coq_failing_cases(ctx, "panocdirrun", REQUIRES, "dcase", "chkpanocdir", terms, shard=ctx.n(10, 50), dump="modelpanocdir")
-    ctx.coverage["panocdir_whole_run_cases"] = len(terms)
+        terms.append(F["term"](cs, o)); owners.append((cs, o))
+    failing = coq_failing_cases(ctx, key + "run", F["requires"], F["casetype"], F["chk"], terms, shard=ctx.n(10, 50), dump=F["dump"])
+    ctx.coverage[key + "_whole_run_cases"] = len(terms)
     if failing is None:
         return
     real, ties = [], 0
@@ -363,21 +371,21 @@ def run_corr(ctx, prefix, scale, extra_oracle=None):
             ties += 1; ctx.count("discarded-near-tie/" + t)
         else:
             real.append(i)
-    ctx.coverage["panocdir_whole_run_disagreements"] = len(real)
-    ctx.coverage["panocdir_disagreements_by_provider"] = {d: sum(1 for i in real if owners[i][0].direction == d) for d in DIRS}
-    ctx.coverage["panocdir_discarded_near_ties"] = ties
-    ctx.log("PANOCDIR whole runs: %d cases, %d disagreements %s, %d near ties discarded" %
-            (len(terms), len(real), ctx.coverage["panocdir_disagreements_by_provider"], ties))
+    ctx.coverage[key + "_whole_run_disagreements"] = len(real)
+    ctx.coverage[key + "_disagreements_by_provider"] = {d: sum(1 for i in real if owners[i][0].direction == d) for d in DIRS}
+    ctx.coverage[key + "_discarded_near_ties"] = ties
+    ctx.log("%s whole runs: %d cases, %d disagreements %s, %d near ties discarded" %
+            (NAME, len(terms), len(real), ctx.coverage[key + "_disagreements_by_provider"], ties))
     if real:
         cs, o = owners[real[0]]
-        sig = ("PANOCDIR:" if prefix == "PANOCDIR" else "%s:panocdir-" % prefix) + "run-differs-from-model:" + cs.direction
-        if prefix == "PANOCDIR":
-            ctx.violation(sig, "whole run of PANOCSolver<%s> differs from the model PanocDir.panocD (first of %d disagreeing runs; status=%s iterations=%s)" %
-                          (cs.direction, len(real), o.get("status"), o.get("iterations")),
+        sig = ((NAME + ":") if prefix == NAME else "%s:%s-" % (prefix, key)) + "run-differs-from-model:" + cs.direction
+        if prefix == NAME:
+            ctx.violation(sig, "whole run of %s<%s> differs from the model %s (first of %d disagreeing runs; status=%s iterations=%s)" %
+                          (F["solver"], cs.direction, F["model"], len(real), o.get("status"), o.get("iterations")),
                           {"driver": "drv_solve", "input": cs.rq.to_input(), "request": cs.rq.describe(), "impl_output": {k: v for k, v in o.items() if k != "records"},
                            "model_dump": getattr(ctx, "last_dump", "")[-3000:], "why": "model (Coq, binary64) and implementation disagree on this run"})
-        ctx.broke("correspondence", "PanocDir.v + Directions.v (whole run) vs PANOCSolver<%s> in drv_solve" % cs.direction,
-                  json.dumps({"n_disagreements": len(real), "by_provider": ctx.coverage["panocdir_disagreements_by_provider"],
+        ctx.broke("correspondence", "%s (whole run) vs %s<%s> in drv_solve" % (F["files"], F["solver"], cs.direction),
+                  json.dumps({"n_disagreements": len(real), "by_provider": ctx.coverage[key + "_disagreements_by_provider"],
                               "first_disagreeing_request": cs.rq.describe(), "driver_input": cs.rq.to_input(),
                               "impl": {k: v for k, v in o.items() if k != "records"}, "impl_records": len(o["records"]),
                               "model_dump": getattr(ctx, "last_dump", "")[-1500:]}))
